@@ -379,9 +379,10 @@ class Report:
                 self.violation("spec", f"implementation result violates the property (class {tag}): {describe(case)} ; the property requires {want}",
                                {"case": case, "wanted": want, "tag": tag, "count": e["count"], "more": e["examples"][1:]}, True)
         for case, verdict in tally["diff"][:5]:
-            has_spec = "SPEC" in verdict
+            # the model is proved to meet the specification, so an input on which the implementation
+            # departs from the model is a concrete input on which the implementation departs from it too
             self.violation("correspondence", f"model and implementation disagree: {describe(case)} ; {verdict}",
-                           {"case": case, "verdict": verdict}, has_spec)
+                           {"case": case, "verdict": verdict}, True)
         if tally["crash"]:
             self.violation("crash", "the in-process harness died (fatal Go error) while evaluating: " + tally["crash"]["op"],
                            {"case": tally["crash"]["op"], "stderr": tally["crash"]["stderr"]}, True)
